@@ -103,6 +103,9 @@ func c03Call(kind uint64, in Sx) Sx {
 	if kind == 0x0302 && len(out.L) == 1 && out.L[0].Str() == "worker-dead" {
 		// the receiver killed its process: a fresh worker reports what the jail looks like now
 		class := "9"
+		if os.Getenv("C03DEBUG") != "" {
+			fmt.Fprintln(os.Stderr, "c03 worker died:", c03lastStderr)
+		}
 		if strings.Contains(c03lastStderr, "closed channel") {
 			class = "3"
 		} else if n := len(c03lastStderr); n > 0 {
@@ -146,7 +149,15 @@ func c03Call1(kind string, in Sx) Sx {
 			c03w = nil
 			return L(S("worker-dead"))
 		}
-		out, err := ParseSx(strings.TrimRight(r.line, "\n"))
+		line := strings.TrimRight(r.line, "\n")
+		if strings.HasSuffix(line, c03RetireMark) {
+			// the case left a goroutine of the code under test behind (blocked in a system call):
+			// the answer is valid, the worker is not reused
+			line = strings.TrimSuffix(line, c03RetireMark)
+			w.kill()
+			c03w = nil
+		}
+		out, err := ParseSx(line)
 		if err != nil {
 			return L(S("worker-bad-reply"))
 		}
@@ -160,6 +171,10 @@ func c03Call1(kind string, in Sx) Sx {
 
 // ---------------------------------------------------------------- child side
 var c03basefd int
+
+const c03RetireMark = "\tretire"
+
+var c03Tainted bool // set by a case after which receiver goroutines are still around
 
 func c03WorkerMain(args []string) {
 	if len(args) != 1 {
@@ -200,8 +215,15 @@ func c03WorkerMain(args []string) {
 			out = L(S("bad-kind"))
 		}
 		wr.WriteString(out.String())
+		if c03Tainted {
+			wr.WriteString(c03RetireMark)
+		}
 		wr.WriteByte('\n')
 		wr.Flush()
+		if c03Tainted {
+			time.Sleep(10 * time.Second) // the parent kills this process
+			return
+		}
 	}
 }
 
